@@ -226,6 +226,16 @@ func (i *Index) AddDesc(d Descriptor, opts ...IndexOpt) {
 			}
 		}
 	}
+	// an entry that already carries exactly this tag and referrer is the one to update,
+	// a merely compatible (e.g. untagged) entry for the same digest must not receive a second copy of the tag
+	if tag != "" || referrer != "" {
+		for mi, md := range i.Manifests {
+			if md.Digest == d.Digest && md.Annotations != nil && md.Annotations[AnnotRefName] == tag && md.Annotations[AnnotReferrerSubject] == referrer {
+				i.Manifests[mi] = d
+				return
+			}
+		}
+	}
 	// search for matching or compatible entry
 	for mi, md := range i.Manifests {
 		if md.Digest == d.Digest {
